@@ -819,6 +819,104 @@ out:
     vnacal_free(vcp);
 }
 
+/* ---- R6: a vector of one point -------------------------------------- */
+
+/*
+ * A vector parameter given at a single frequency is defined there and
+ * nowhere else: it reads back its value at that frequency only, and as a
+ * standard it is accepted only by a calibration made at that frequency.
+ * pos: 0 calibration on the point, 1 below it, 2 above it; nf: 1 or 3
+ * calibration frequencies (3: the point is the middle one, or lies outside)
+ */
+static void run_r6(int pos, int order, int pk, int nf3, vf_result *r)
+{
+    const double f0 = 1.5e9;
+    const double complex v0 = -0.9 + 0.05 * I;
+    double cal_f[3];
+    int nf = nf3 ? 3 : 1;
+    /* three frequencies around the point always reach beyond it */
+    bool must_refuse = pos != 0 || nf3;
+    vnacal_t *vcp;
+    vnacal_new_t *vnp;
+    double complex m0[3] = { 0.1, 0.2, 0.3 };
+    double complex *mm[1] = { m0 };
+    double shift = pos == 0 ? 1.0 : pos == 1 ? 0.5 : 1.6;
+
+    if (nf3) {
+	cal_f[0] = 0.8 * f0 * shift;
+	cal_f[1] = f0 * shift;
+	cal_f[2] = 1.25 * f0 * shift;
+    } else {
+	cal_f[0] = f0 * shift;
+    }
+    vf_desc(r, "R6 %s given at the single frequency %.4g Hz, calibration of "
+	    "%d frequenc%s %s, %s", pk == 0 ? "vector standard" :
+	    "unknown starting from a vector", f0, nf, nf == 1 ? "y" : "ies",
+	    pos == 0 ? (nf3 ? "around that point" : "at that point") :
+	    pos == 1 ? "below it" : "above it", order == 0 ?
+	    "set_frequency_vector first" : "standard added first");
+    vf_errlog_reset(&elog);
+    vcp = vnacal_create((vnaerr_error_fn_t *)vf_errfn, &elog);
+    int hv = vnacal_make_vector_parameter(vcp, &f0, 1, &v0);
+    int h = pk == 0 ? hv : vnacal_make_unknown_parameter(vcp, hv);
+    if (hv < 0 || h < 0) {
+	vf_fail(r, "r6:setup", "one-point parameter could not be made: %s",
+		elog.count ? elog.msg[0] : "");
+	vnacal_free(vcp);
+	return;
+    }
+    /* reading the value */
+    {
+	double complex g = vnacal_get_parameter_value(vcp, hv, f0);
+	++r->transitions;
+	if (g != v0)
+	    vf_fail(r, "r6:value", "a one-point vector reads %g%+gj at its "
+		    "frequency, was made as %g%+gj", creal(g), cimag(g),
+		    creal(v0), cimag(v0));
+	for (int k = 0; k < 2 && r->status == VF_OK; ++k) {
+	    errno = 0;
+	    g = vnacal_get_parameter_value(vcp, hv, k ? 1.5 * f0 : 0.6 * f0);
+	    ++r->transitions;
+	    if (creal(g) != HUGE_VAL || errno != EINVAL)
+		vf_fail(r, "r6:out-of-range-value", "a vector given at "
+			"%.4g Hz only has the value %g%+gj at %.4g Hz (errno "
+			"%d)", f0, creal(g), cimag(g), k ? 1.5 * f0 :
+			0.6 * f0, errno);
+	}
+    }
+    vnp = vnacal_new_alloc(vcp, VNACAL_T8, 1, 1, nf);
+    int rc1, rc2;
+    if (order == 0) {
+	rc1 = vnacal_new_set_frequency_vector(vnp, cal_f);
+	errno = 0;
+	rc2 = vnacal_new_add_single_reflect_m(vnp, mm, 1, 1, h, 1);
+    } else {
+	rc1 = vnacal_new_add_single_reflect_m(vnp, mm, 1, 1, h, 1);
+	errno = 0;
+	rc2 = vnacal_new_set_frequency_vector(vnp, cal_f);
+    }
+    int e = errno;
+    r->transitions += 2;
+    if (r->status != VF_OK) {
+	;
+    } else if (rc1 != 0) {
+	vf_fail(r, "r6:setup", "first call failed: %s",
+		elog.count ? elog.msg[0] : "");
+    } else if (must_refuse && (rc2 != -1 || e != EINVAL)) {
+	vf_fail(r, "r6:off-point-accepted", "a standard given at %.4g Hz "
+		"only was accepted for a calibration on %.4g..%.4g Hz (rc %d "
+		"errno %d)", f0, cal_f[0], cal_f[nf - 1], rc2, e);
+    } else if (!must_refuse && rc2 != 0) {
+	vf_fail(r, "r6:on-point-refused", "a standard given at %.4g Hz was "
+		"refused for a calibration at that frequency: %s", f0,
+		elog.count ? elog.msg[0] : "");
+    }
+    r->nontrivial = 1;
+    vf_outcome(r, "R6 %s", must_refuse ? "refused" : "accepted");
+    vnacal_free(vcp);
+}
+#define N_R6 (3 * 2 * 2 * 2)
+
 /* ---- case space ------------------------------------------------------ */
 
 #define N_R0 (7 * NSPACING * NFUNC)
@@ -834,7 +932,7 @@ static const int grid_n[NGRIDN] = { 1, 2, 3, 4, 5, 7 };
 
 static long count(int tier)
 {
-    return N_R0 + N_R1 + n_r2(tier) + N_R3 + N_R4 + N_R5;
+    return N_R0 + N_R1 + n_r2(tier) + N_R3 + N_R4 + N_R5 + N_R6;
 }
 
 static void run(int tier, long idx, vf_result *r)
@@ -865,6 +963,12 @@ static void run(int tier, long idx, vf_result *r)
 	int fn = vf_digit(&idx, 2);
 	int sp = vf_digit(&idx, NSPACING);
 	run_r4(grid_n[idx], sp, fn, ov, r);
+    } else if (idx - N_R4 >= N_R5) {
+	idx -= N_R4 + N_R5;
+	int nf3 = vf_digit(&idx, 2);
+	int pk = vf_digit(&idx, 2);
+	int order = vf_digit(&idx, 2);
+	run_r6((int)idx, order, pk, nf3, r);
     } else {
 	idx -= N_R4;
 	int role = vf_digit(&idx, 2);
@@ -884,7 +988,9 @@ vf_driver vf_drv = {
 	"applying at all midpoints / 10 % points / knots in batch and one by "
 	"one in reverse, plus 6 out-of-range requests; R3 (noise grid size x "
 	"spacing x dependence x vector x coverage); R4 (sigma grid size x "
-	"spacing x dependence); a case is non-trivial when it reached its "
+	"spacing x dependence); R5 (vector standards through a solve); R6 "
+	"(a one-point vector on, below and above a calibration of 1 or 3 "
+	"frequencies x call order x parameter kind); a case is non-trivial when it reached its "
 	"comparisons; 'between knots' exactness is only required for "
 	"functions inside the class the documented window reproduces",
     .count = count,
